@@ -37,6 +37,9 @@ func genSched(t *rapid.T, nNodes int, kinds []string) SchedSpec {
 			s.DupPct = rapid.IntRange(5, 40).Draw(t, "dupPct")
 		}
 	}
+	if s.Kind == "duplate" {
+		s.P = rapid.IntRange(1, 6*nNodes*(nNodes-1)).Draw(t, "lag")
+	}
 	if s.Kind == "hold" {
 		// a session of n parties creates roughly rounds*n*(n-1) deliveries; most of the draws fall inside a run
 		s.Hold = rapid.SliceOfNDistinct(rapid.IntRange(0, 12*nNodes*(nNodes-1)), 1, 3, rapid.ID[int]).Draw(t, "hold")
@@ -45,7 +48,7 @@ func genSched(t *rapid.T, nNodes int, kinds []string) SchedSpec {
 }
 
 var schedNoDup = []string{"fifo", "lifo", "starve", "prestart", "hold", "hold", "choices", "choices"}
-var schedAll = []string{"fifo", "lifo", "starve", "prestart", "dupall", "hold", "hold", "choices", "choices", "choices-dup"}
+var schedAll = []string{"fifo", "lifo", "starve", "prestart", "dupall", "duplate", "hold", "hold", "choices", "choices", "choices-dup"}
 var schedNoPre = []string{"fifo", "lifo", "starve", "hold", "hold", "choices", "choices"}
 
 func (s SchedSpec) Make() sim.Scheduler {
@@ -58,6 +61,8 @@ func (s SchedSpec) Make() sim.Scheduler {
 		return sim.PreStart{P: s.P}
 	case "dupall":
 		return &sim.DupAll{}
+	case "duplate":
+		return &sim.DupLate{Lag: s.P}
 	case "hold":
 		return &sim.HoldSome{IDs: s.Hold}
 	case "holdmsg":
